@@ -209,13 +209,13 @@ def wrapping(run, repo, thorough):
         toks = []
         for k, w in enumerate(widths):
             key = Z + 'tok%d' % k
-            I.sym_strings[key] = (w, 'text')
+            I.sym_strings[key] = (w, 'any')          # tokens of a CTI value are free text without blanks
             toks.append(key)
         if form == 'string':
             from ..absstr import SegStr
             obj = SegStr([])
             for k, t_ in enumerate(toks):
-                obj = obj + (' ' if k else '') + SegStr.field(t_, widths[k], 'text')
+                obj = obj + (' ' if k else '') + SegStr.field(t_, widths[k], 'any')
         else:
             obj = ListV(list(toks))
             if form == 'tuple':
